@@ -151,11 +151,12 @@ def run(ctx):
     hl = validate(ctx, hist, "V-hist", "history")
     ctx.cov["samples"].append([json.loads(x) for x in hl[:6]])
     # Leg C (C09): two concurrent /sign_in requests for the same e-mail, one with an accepted and one with a revoked token
+    # and (C10) two logins completing at the same moment, two browsers, two codes, two users
+    pairs = os.path.join(ctx.scratch, "pairs.ndjson")
+    pr = V.harness(ctx, ["as-pairs", "-out", pairs, "-seed", ctx.seed, "-n", 240 if quick else 4000, "-workers", 8])
+    validate(ctx, pairs, "V-pairs", "concurrent-pair")
+    ctx.cov["concurrent_pairs"] = pr["executed"]
     if pid == "C09":
-        pairs = os.path.join(ctx.scratch, "pairs.ndjson")
-        pr = V.harness(ctx, ["as-pairs", "-out", pairs, "-seed", ctx.seed, "-n", 200 if quick else 4000, "-workers", 8])
-        validate(ctx, pairs, "V-pairs", "concurrent-pair")
-        ctx.cov["concurrent_pairs"] = pr["executed"]
         from checks import sso
         sso.leg(ctx)
     for smp in ctx.cov["samples"]:
